@@ -56,3 +56,16 @@ func (pm *ProtocolManager) VerifC20ConfirmCache() *ConfirmCache { return pm.conf
 
 // VerifC20RcvQueueLen is the number of block messages not yet taken by rcvBlockLoop.
 func (pm *ProtocolManager) VerifC20RcvQueueLen() int { return len(pm.rcvBlocksCh) }
+
+// VerifC20SetTest switches the manager to its built-in test mode (pm.setTest) and returns the channel on
+// which rcvBlockLoop reports every processed blocks message (VerifC20RcvBlocks) and every drain-timer
+// tick (VerifC20QueueTimer). The loop blocks until the token is read.
+func (pm *ProtocolManager) VerifC20SetTest() <-chan int {
+	pm.setTest()
+	return pm.testOutput
+}
+
+const (
+	VerifC20RcvBlocks  = testRcvBlocks
+	VerifC20QueueTimer = testQueueTimer
+)
